@@ -425,6 +425,12 @@ func (o *vzOracles) onReplayResult(nd *vzNode, hdr tmconsensus.Header, proof tmc
 	}
 	o.mu.Lock()
 	defer o.mu.Unlock()
+	if err == nil {
+		if nd.disk.replayAccepted == nil {
+			nd.disk.replayAccepted = map[string]bool{}
+		}
+		nd.disk.replayAccepted[string(hdr.Hash)] = true
+	}
 	if err != nil {
 		return
 	}
@@ -1063,6 +1069,25 @@ func (o *vzOracles) checkRecovered(nd *vzNode, chain map[uint64]string, target u
 
 // checkStoredHeadersIntact: what the committed-header store returns for a height is still what was saved
 // (C04: no later input changes a committed height; C16: loads return what the latest save stored).
+// checkRejectedReplaysLeftNoTrace (C05): a replayed header the engine refused is not in its round store.
+func (o *vzOracles) checkRejectedReplaysLeftNoTrace(nd *vzNode) {
+	if !o.on["C05"] {
+		return
+	}
+	o.mu.Lock()
+	defer o.mu.Unlock()
+	var hashes []string
+	for h := range nd.disk.replayedSaved {
+		hashes = append(hashes, h)
+	}
+	sort.Strings(hashes)
+	for _, h := range hashes {
+		if !nd.disk.replayAccepted[h] {
+			o.violate("C05", "rejected-replay-stored", "%s: a replayed header for height %d (%x) was written to the round store although every replay of it was refused", nd.ident(), nd.disk.replayedSaved[h], trunc(h))
+		}
+	}
+}
+
 func (o *vzOracles) checkStoredHeadersIntact(nd *vzNode) {
 	if !o.on["C04"] && !o.on["C10"] && !o.on["C01"] {
 		return
